@@ -262,7 +262,7 @@ def check_values(P, out, ev, dec, method, use_alt=False, skip_x=False):
                 eps = Fraction(2.0 ** -23 if P['f32'][c] else 2.0 ** -52)
                 tol += eps * len(vals) * max(abs(c10.exact(v)) for v in vals)
             if kind == 'i' and method in ('mean', 'median'):
-                tol += Fraction(1, 10 ** 6) * max(1, abs(want))
+                tol += Fraction(1, 10 ** 6) * max(1, abs(want)) + Fraction(2.0 ** -52) * len(vals) * max(abs(c10.exact(v)) for v in vals)
             if abs(got - want) > tol:
                 return 'row %d (frame %d) column %s: printed %s, source (%s of %r) = %s' % (r, i, P['names'][c], cell, method, [str(v) for v in vals[:6]], float(want))
     return None
